@@ -5,7 +5,7 @@ from gencheck import *
 
 
 def ser_jobs(tree, rng, per_class, modes=(False,), C=None, name=''):
-    vg = ValueGen(tree, rng, free_optionals=True)
+    vg = ValueGen(tree, rng, free_optionals=True, boundary_lengths=True)
     jobs = []
     for cls, body in classes_of(tree):
         for k in range(per_class):
